@@ -257,8 +257,18 @@ pub fn c14(ctx: &Ctx) -> PropResult {
         cases.push(run_case(format!("{pre}s <- {l}\nDISPLAY(TO_LOWER(s))\nDISPLAY(TO_UPPER(s))\nDISPLAY(TO_LOWER(s + s))\nDISPLAY(TO_LOWER(s + \" \" + s))\nDISPLAY(TO_UPPER(TO_LOWER(s)))\n"), "final-sigma"));
     }
     // number / boolean text
-    for t in ["1", "1.5", "-2", "+3", ".5", "5.", "1e3", "1E-2", "inf", "-Infinity", "NaN", "nan", " 1", "1 ", "", "0x10", "1_0", "true", "false", "TRUE", "True", " true", "1e400", "-1e-400", "0.1", "9007199254740993", "１"] {
+    for t in ["1", "1.5", "-2", "+3", ".5", "5.", "1e3", "1E-2", "inf", "-Infinity", "NaN", "nan", " 1", "1 ", "", "0x10", "1_0", "true", "false", "TRUE", "True", " true", "1e400", "-1e-400", "0.1", "9007199254740993", "１", "-0", "-00", "-0.0", "+0", "-0e0", "00", "007", "-", "+", ".", "-.5", "1e", "e1", "1_000", "١٢", "-000", "0.", "-0.", "+.0", "1e-400", "-1e-400", "18446744073709551616", "-9223372036854775808", "-9223372036854775809", "1e19", "0e999", "-0e999"] {
         cases.push(run_case(format!("{pre}DISPLAY(TO_NUMBER({}))\nDISPLAY(TO_BOOL({}))\n", strlit(t), strlit(t)), "parse-text"));
+    }
+    // TRIM is the Unicode operation: every White_Space character (and near misses) at either end, in ASCII-only and
+    // in non-ASCII strings
+    for ws in ["\u{9}", "\u{a}", "\u{b}", "\u{c}", "\u{d}", " ", "\u{85}", "\u{a0}", "\u{1680}", "\u{2003}", "\u{2028}", "\u{2029}", "\u{202f}", "\u{205f}", "\u{3000}", "\u{feff}", "\u{200b}", "\u{1c}", "\u{1f}", "\u{0}"] {
+        for core in ["ab", "a b", "é", ""] {
+            for shape in [format!("{ws}{core}"), format!("{core}{ws}"), format!("{ws}{core}{ws}{ws}"), format!("a{ws}b")] {
+                let l = strlit(&shape);
+                cases.push(run_case(format!("{pre}s <- {l}\nt <- TRIM(s)\nDISPLAY(LENGTH(s))\nDISPLAY(LENGTH(t))\nDISPLAY(\"[\" + t + \"]\")\nDISPLAY(TRIM(t) == t)\n"), "trim-unicode"));
+            }
+        }
     }
     // random longer Unicode strings
     let uni = ["a", "B", "ß", "İ", "ǅ", " ", "\u{a0}", "\u{2003}", "é", "中", "😀", "ﬁ", "\t", "z", ",", "ab"];
@@ -437,14 +447,17 @@ pub fn c16(ctx: &Ctx) -> PropResult {
     // keys within epsilon and infinite keys are the known finding and are replayed separately
     let keys = ["1", "1.0", "0", "-0", "\"1\"", "TRUE", "FALSE", "NULL", "NAN", "2", "\"\"", "\"a\"", "0.5"];
     let vals = ["\"v1\"", "\"v2\"", "7", "NULL", "TRUE", "[1]"];
-    let pre = format!("{}INF <- {}\nNAN <- INF - INF\nm0 <- MAP()\nm1 <- MAP()\n", imports(&["MAP"]), inf_literal());
+    let pre = format!("{}INF <- {}\nNAN <- INF - INF\nm0 <- MAP()\nm1 <- MAP()\nPROCEDURE count(l, v) {{\nc <- 0\nFOR EACH e IN l {{\nIF (e == v) {{\nc <- c + 1\n}}\n}}\nRETURN c\n}}\n", imports(&["MAP"]), inf_literal());
     let mut cases = vec![];
     let mut rng = mk_rng(ctx.seed, 16);
     let op = |m: usize, o: usize, k: &str, v: &str| -> String {
         match o {
             0 => format!("DISPLAY(MAP_INSERT(m{m}, {k}, {v}))\n"),
             1 => format!("DISPLAY(MAP_GET(m{m}, {k}))\n"),
-            _ => format!("DISPLAY(MAP_CONTAINS_KEY(m{m}, {k}))\n"),
+            2 => format!("DISPLAY(MAP_CONTAINS_KEY(m{m}, {k}))\n"),
+            // keys / values observed in the middle of a history, independent of their order
+            3 => format!("DISPLAY(LENGTH(MAP_VALUES(m{m}, 0)))\nDISPLAY(count(MAP_VALUES(m{m}, 0), \"v2\"))\nDISPLAY(count(MAP_VALUES(m{m}, 0), 7))\nDISPLAY(count(MAP_VALUES(m{m}, 0), \"v1\"))\n"),
+            _ => format!("DISPLAY(LENGTH(MAP_KEYS(m{m}, 0)))\nDISPLAY(count(MAP_KEYS(m{m}, 0), \"a\"))\nDISPLAY(count(MAP_KEYS(m{m}, 0), 2))\nDISPLAY(count(MAP_KEYS(m{m}, 0), {k}))\n"),
         }
     };
     let tail = "DISPLAY(LENGTH(MAP_KEYS(m0, 0)))\nDISPLAY(LENGTH(MAP_VALUES(m0, 0)))\nDISPLAY(LENGTH(MAP_KEYS(m1, 0)))\n";
@@ -470,12 +483,23 @@ pub fn c16(ctx: &Ctx) -> PropResult {
         let src = format!("{pre}{}{}{}{}{tail}", op(0, 0, keys[(k1 + k2) % keys.len()], "\"init\""), op(m1, o1, keys[k1], vals[0]), op(m2, o2, keys[k2], vals[1]), op(m1, 1, keys[k1], ""));
         cases.push(run_case(src, "history-short"));
     }
+    // observe, change, observe again: every observer twice around every single operation (stale caches)
+    for obs in [1usize, 2, 3, 4] {
+        for ch in 0..3 {
+            for (k1, k2) in [("\"a\"", "\"a\""), ("\"a\"", "2"), ("1", "1.0"), ("NULL", "NULL"), ("0", "-0")] {
+                for mm in 0..2 {
+                    let src = format!("{pre}{}{}{}{}{}{}{tail}", op(0, 0, k1, "\"v1\""), op(0, 0, "2", "7"), op(0, obs, k1, ""), op(mm, ch, k2, "\"v2\""), op(0, obs, k1, ""), op(1, obs, k1, ""));
+                    cases.push(run_case(src, "observe-change-observe"));
+                }
+            }
+        }
+    }
     let n = if ctx.quick() { 1_500 } else { 40_000 };
     for _ in 0..n {
         let len = 3 + rng.below(38);
         let mut src = pre.clone();
         for _ in 0..len {
-            src.push_str(&op(rng.below(2), rng.below(3), keys[rng.below(keys.len())], vals[rng.below(vals.len())]));
+            src.push_str(&op(rng.below(2), rng.below(5), keys[rng.below(keys.len())], vals[rng.below(vals.len())]));
         }
         src.push_str(tail);
         // keys and values as multisets: sort order is unspecified, so display membership per key
